@@ -659,6 +659,7 @@ package service
 //@ func addrWithoutZone
 //@   props C03 C18
 //@   pure
+//@   requires addr != nil
 
 //@ func timedCopy$1
 //@   props C03 C04 C16 C18
